@@ -546,6 +546,82 @@ func TestC15(t *testing.T) {
 		panics = append(panics, w.panics...)
 	}
 
+	// ---- several apps in the first-generation sweep: earlier apps' liquidations shrink list and counter within the
+	// block; vault counts around the capacities Go gives an appended slice (1, 2, 4, 8 exact; 3, 5, 9 with slack) ----------
+	{
+		type mw struct {
+			weak, strong []int
+			interleave   bool
+		}
+		var worlds []mw
+		remain := []int{1, 2, 4, 8}
+		liq := []int{1, 2}
+		if thorough() {
+			remain = []int{1, 2, 3, 4, 5, 8, 9}
+			liq = []int{1, 2, 3}
+		}
+		for _, r := range remain {
+			for _, l := range liq {
+				worlds = append(worlds, mw{[]int{l, 0}, []int{0, r}, false}) // app 1 liquidates, app 2 is swept after it
+				if thorough() || (r+l)%2 == 0 {
+					worlds = append(worlds, mw{[]int{0, l}, []int{r, 0}, false})       // control: the liquidating app is the last one
+					worlds = append(worlds, mw{[]int{l, 1, 0}, []int{0, 0, r}, r%2 == 0}) // three apps, two of them liquidate
+				}
+			}
+		}
+		if thorough() {
+			worlds = append(worlds, mw{[]int{2, 2, 2}, []int{1, 1, 1}, true}, mw{[]int{3, 0, 1}, []int{1, 4, 0}, true})
+		}
+		for wi, m := range worlds {
+			w := c15NewWorld(t, tr, 2)
+			w.setupV1Multi(m.weak, m.strong, m.interleave)
+			w.advance(6, 1)
+			w.setPrice(1, 1000000, true)
+			total := 0
+			for i := range m.weak {
+				total += m.weak[i] + m.strong[i]
+			}
+			name := fmt.Sprintf("multi%d.w%v.s%v", wi, m.weak, m.strong)
+			name = strings.ReplaceAll(name, " ", ",")
+			seenBatch := map[uint64]bool{}
+			for _, batch := range []uint64{1, 2, 3, uint64(total), 200} {
+				if seenBatch[batch] {
+					continue
+				}
+				seenBatch[batch] = true
+				st, _ := w.ctx.CacheContext()
+				w.app.LiquidationKeeper.SetParams(st, liqv1types.Params{LiquidationBatchSize: batch})
+				w.app.NewliqKeeper.SetParams(st, liqv2types.Params{LiquidationBatchSize: batch})
+				// consecutive blocks: the offsets advance, the earlier apps keep liquidating until nothing is left
+				for blk := 0; blk < 4; blk++ {
+					scen := fmt.Sprintf("%s.batch%d.block%d", name, batch, blk)
+					halted := false
+					for _, bn := range []string{"liquidation.BeginBlocker", "liquidationsV2.BeginBlocker", "auction.BeginBlocker"} {
+						b := c15Find(bn)
+						r := w.run(st, b, 0, 0, false)
+						w.envLine(scen, st, b, "1", r)
+						tr.Count("multi-app-runs")
+						if !r.returned {
+							tr.Count("multi-app-panics")
+							halted = true
+							break
+						}
+						st = r.ctx
+					}
+					if halted {
+						break
+					}
+					st = st.WithBlockTime(st.BlockTime().Add(6 * time.Second)).WithBlockHeight(st.BlockHeight() + 1)
+				}
+				tr.Stats["multi-app-vaults-liquidated"] += len(w.app.LiquidationKeeper.GetLockedVaults(st))
+				tr.Stats["multi-app-vaults-left"] += len(w.app.VaultKeeper.GetVaults(st))
+			}
+			panics = append(panics, w.panics...)
+		}
+		tr.Count("multi-app-worlds")
+		tr.Stats["multi-app-worlds"] = len(worlds)
+	}
+
 	// ---- synthetic counter/list mismatches: model of the sweep prelude vs the real sweeps (not findings) ------
 	{
 		w := c15NewWorld(t, tr, 12)
